@@ -31,7 +31,7 @@ ASSUMPTIONS = ['one https upstream URL is exercised (default port 443, real TLS 
                'response (other sequences on one connection are C04)']
 TIERS = {
     'quick': {'runs': 7000, 'budget_s': 40, 'max_body': 300},
-    'thorough': {'runs': 700000, 'budget_s': 900, 'max_body': 20000},
+    'thorough': {'runs': 700000, 'budget_s': 900, 'max_body': 6000, 'watchdog_s': 300},
 }
 STATE_MEASURE = 'distinct (match class, url form, rewrite, method, framing) tuples'
 
